@@ -67,7 +67,7 @@ func RClockState(c *core.Ctx) {
 					if f == start {
 						zero := false
 						for _, fct := range core.FactsAtBlock(b) {
-							if call, ok := fct.Cond.(*ssa.Call); ok && call.Call.StaticCallee() != nil && call.Call.StaticCallee().Name() == "IsZero" && fct.Val {
+							if call, ok := fct.Cond.(*ssa.Call); ok && call.Call.StaticCallee() != nil && core.BaseName(call.Call.StaticCallee()) == "IsZero" && fct.Val {
 								zero = true
 							}
 						}
@@ -93,13 +93,17 @@ func RRestart(c *core.Ctx) {
 	}
 	c.Visit(core.SSAName(md))
 	var branch *ssa.If
+	beyondOnTrue := true
 	for _, b := range md.Blocks {
 		if ifi, ok := b.Instrs[len(b.Instrs)-1].(*ssa.If); ok {
-			if bin, ok := ifi.Cond.(*ssa.BinOp); ok && (bin.Op == token.GTR || bin.Op == token.LSS) {
-				for _, side := range []ssa.Value{bin.X, bin.Y} {
+			if bin, ok := ifi.Cond.(*ssa.BinOp); ok && (bin.Op == token.GTR || bin.Op == token.LSS || bin.Op == token.GEQ || bin.Op == token.LEQ) {
+				for k, side := range []ssa.Value{bin.X, bin.Y} {
 					if call, ok := side.(*ssa.Call); ok && call.Call.StaticCallee() == read {
 						if fa, ok := call.Call.Args[0].(*ssa.FieldAddr); ok && core.FieldVarOfAddr(fa) == clockEnd {
 							branch = ifi
+							// which successor is "the deadline lies beyond the clock's end"?
+							// clockEnd OP end (k == 0): < / <= true side;  end OP clockEnd (k == 1): > / >= true side
+							beyondOnTrue = (k == 0) == (bin.Op == token.LSS || bin.Op == token.LEQ)
 						}
 					}
 				}
@@ -112,6 +116,9 @@ func RRestart(c *core.Ctx) {
 	}
 	// from the true successor, every path to a return passes a call to extendClock
 	startB := branch.Block().Succs[0]
+	if !beyondOnTrue {
+		startB = branch.Block().Succs[1]
+	}
 	seen := map[*ssa.BasicBlock]bool{}
 	stack := []*ssa.BasicBlock{startB}
 	leak := false
@@ -243,16 +250,34 @@ func REndCover(c *core.Ctx) {
 	c.Visit(core.SSAName(md))
 	c.Visit(core.SSAName(extend))
 	var arg ssa.Value
+	var argBlock *ssa.BasicBlock
 	for _, b := range md.Blocks {
 		for _, ins := range b.Instrs {
 			if call, ok := ins.(*ssa.Call); ok && call.Call.StaticCallee() == extend && len(call.Call.Args) > 0 {
 				arg = call.Call.Args[0]
+				argBlock = b
 			}
+		}
+	}
+	// blocks the extendClock call can reach: only returns after the call hand out
+	// "the deadline the clock was extended for" (an early return on the path where
+	// the clock already runs long enough extends nothing)
+	after := map[*ssa.BasicBlock]bool{}
+	if argBlock != nil {
+		stack := []*ssa.BasicBlock{argBlock}
+		for len(stack) > 0 {
+			b := stack[len(stack)-1]
+			stack = stack[:len(stack)-1]
+			if after[b] {
+				continue
+			}
+			after[b] = true
+			stack = append(stack, b.Succs...)
 		}
 	}
 	okRet := arg != nil
 	for _, b := range md.Blocks {
-		if ret, ok := b.Instrs[len(b.Instrs)-1].(*ssa.Return); ok && arg != nil {
+		if ret, ok := b.Instrs[len(b.Instrs)-1].(*ssa.Return); ok && arg != nil && after[b] {
 			found := false
 			for _, l := range append(leaves(ret.Results[0]), ret.Results[0]) {
 				if l == arg {
@@ -320,7 +345,7 @@ func RPeriod(c *core.Ctx) {
 				continue
 			}
 			cal := call.Call.StaticCallee()
-			if cal == nil || cal.Pkg == nil || cal.Pkg.Pkg.Path() != "time" || cal.Name() != "Sleep" {
+			if cal == nil || cal.Pkg == nil || cal.Pkg.Pkg.Path() != "time" || core.BaseName(cal) != "Sleep" {
 				continue
 			}
 			n++
